@@ -114,7 +114,7 @@ func c13Bases() []c13Base {
 	hosts := []hk{
 		{"localhost", "domain", true}, {"example.com", "domain", true}, {"www.xn--xample-9ua.com", "domain", true}, {"example.com.", "domain", true},
 		{strings.Repeat("a", 63) + ".com", "domain", true}, {c01Host253, "domain", false}, {c01Host253 + ".", "domain", false}, {c01Base251, "domain", true},
-		{"a-b.c1.d", "domain", true}, {"1a.b", "domain", true}, {"api-v2.example.co.uk", "domain", true}, {"xn--bcher-kva.example", "domain", true}, {"host-1.internal", "domain", true},
+		{"a-b.c1.d", "domain", true}, {"a." + strings.Repeat("l", 63), "domain", true}, {"a." + strings.Repeat("m", 63) + ".com", "domain", true}, {"a." + strings.Repeat("l", 63) + ".", "domain", true}, {"1a.b", "domain", true}, {"api-v2.example.co.uk", "domain", true}, {"xn--bcher-kva.example", "domain", true}, {"host-1.internal", "domain", true},
 		{"10.0.0.1", "ipv4", false}, {"[fe80::1]", "ipv6", false},
 		{"1.2.3.4", "ipv4", false}, {"127.0.0.1", "ipv4", false}, {"255.255.255.255", "ipv4", false},
 		{"[::1]", "ipv6", false}, {"[2001:db8::1]", "ipv6", false}, {"[::]", "ipv6", false},
@@ -274,6 +274,22 @@ func c13Defects() []c13Defect {
 				return "", false
 			}
 			return rep(b, strings.Repeat("z", 64)+"."+b.host), true
+		}},
+		{"64-byte last label", func(b c13Base) (string, bool) {
+			if b.kind != "domain" || len(b.host) > 150 {
+				return "", false
+			}
+			if h, dot := strings.CutSuffix(b.host, "."); dot {
+				return rep(b, h+"."+strings.Repeat("z", 64)+"."), true
+			}
+			return rep(b, b.host+"."+strings.Repeat("z", 64)), true
+		}},
+		{"64-byte middle label", func(b c13Base) (string, bool) {
+			i := strings.IndexByte(b.host, '.')
+			if b.kind != "domain" || len(b.host) > 150 || i < 0 || i == len(b.host)-1 {
+				return "", false
+			}
+			return rep(b, b.host[:i+1]+strings.Repeat("z", 64)+b.host[i:]), true
 		}},
 		{"254-byte domain", func(b c13Base) (string, bool) {
 			switch b.host { // lengthen the last label (61 -> 62 bytes) so that only the total length is at fault
